@@ -64,6 +64,14 @@ def run_case(case):
             if ks != sorted(model):
                 res.fail("keys-wrong", "mid-history keys() = %r, sorted keys are %r" % (ks, sorted(model)))
             res.emit("hx.items 0", ";".join("%s=%s" % (hx(k), hx(v)) for k, v in it0.items()) or "-")
+            # next() on the same iterator object between mutations (an iterator that remembered the trie as it was answers wrongly)
+            sk = sorted(model)
+            for q in [None] + sk[:2] + [b"\x12"]:
+                want = next((k for k in sk if q is None or k > q), None)
+                got = it0.next() if q is None else it0.next(q)
+                if got != want:
+                    res.fail("next-wrong", "mid-history next(%r) on a reused iterator = %r, smallest stored key %s is %r"
+                             % (q, got, "overall" if q is None else "greater than it", want))
         except Exception as e:  # noqa
             res.fail("iterator-raised", "mid-history iteration raised %r" % (e,))
 
